@@ -23,3 +23,4 @@ Lemma subnet_test_v4_pinned a b : subnet_test_v4 a b = (a =? b). Proof. reflexiv
 Lemma subnet_test_v6_pinned a b : subnet_test_v6 a b = (a =? b). Proof. reflexivity. Qed.
 Lemma ip_check_due_pinned now next : ip_check_due now next = (next <=? now).    Proof. reflexivity. Qed.
 Lemma ip_check_default_pinned : ip_check_default_millis = 5000.  Proof. reflexivity. Qed.
+Lemma legacy_multicast_flag_pinned : legacy_multicast_flag = false.       Proof. reflexivity. Qed.
